@@ -1385,6 +1385,9 @@ class Worker(actor.RallyActor):
                 self.drive()
             else:
                 self.logger.debug("Worker[%d] is executing tasks at index [%d].", self.worker_id, self.current_task_index)
+                # The previous tasks (no join point in between) may have added samples since we've sent them for the last time. Send
+                # them before we replace the sampler, otherwise they are lost.
+                self.send_samples()
                 self.sampler = Sampler(start_timestamp=time.perf_counter(), buffer_size=self.sample_queue_size)
                 executor = AsyncIoAdapter(
                     self.config,
